@@ -98,7 +98,9 @@ def random_configs(tier, seed):
     base = [
         dict(mode="direct", tick=1000, latlo=2000, lathi=2000, impl=True),
         dict(mode="direct", tick=1000, latlo=0, lathi=0, impl=True),
-        dict(mode="sim", tick=1000, latlo=3000, lathi=3000, impl=True),
+        dict(mode="sim", tick=1000, latlo=3000, lathi=3000, impl=True),              # half of the crashes: software exited first
+        dict(mode="sim", tick=1000, latlo=4000, lathi=4000, exitcrash=100, impl=True),  # every crash hits software that
+                                                                                      # returned by itself, old ring handles kept
         dict(mode="direct", tick=1000, latlo=500, lathi=3500, impl=False),          # sampled latencies
         dict(mode="direct", tick=1000, latlo=2000, lathi=2000, cache=1, impl=False),  # page cache
     ]
@@ -160,17 +162,20 @@ def count_lines(path):
         return sum(1 for _ in f)
 
 
-FEATURES = ["cancel_hit", "cancel_miss", "full_push", "late_pop", "partial_drain", "lat_wait", "crash_lost", "ebadf", "einval"]
+FEATURES = ["cancel_hit", "cancel_miss", "full_push", "late_pop", "partial_drain", "lat_wait", "crash_lost",
+            "exit_crash_lost", "ebadf", "einval"]
 
 
 def features_of(path, acc):
     """Vacuity bookkeeping on recorded executions of the real code (counts only, no verdict)."""
-    ops, sub_at, now, vis, alive_ops = {}, {}, 0, {}, set()
+    ops, sub_at, now, vis, alive_ops, exited = {}, {}, 0, {}, set(), False
     for line in open(path):
         e = json.loads(line)
         ev = e["ev"]
+        if ev == "note" and e.get("what") == "exit":
+            exited = True      # the host software returned by itself; its handles are parked outside the task
         if ev == "reset":
-            ops, sub_at, now, vis, alive_ops = {}, {}, 0, {}, set()
+            ops, sub_at, now, vis, alive_ops, exited = {}, {}, 0, {}, set(), False
         elif ev == "tick":
             now = e["now"]
         elif ev == "push":
@@ -209,6 +214,9 @@ def features_of(path, acc):
             vis = {k: 0 for k in vis}
         if ev == "crash":
             acc["crash_lost"] += len(alive_ops)
+            if exited:
+                acc["exit_crash_lost"] += len(alive_ops)   # in flight when a host whose software had exited was crashed
+            exited = False
             alive_ops = set()
     return acc
 
